@@ -6,9 +6,11 @@ import (
 	"crypto/x509"
 	"encoding/base64"
 	"fmt"
+	"io"
 	"net"
 	"strings"
 	"sync"
+	"sync/atomic"
 	"time"
 
 	"github.com/hashicorp/nodeenrollment"
@@ -142,4 +144,58 @@ func (r *Rogue) String() string {
 	r.mu.Lock()
 	defer r.mu.Unlock()
 	return fmt.Sprintf("%d connections, handshakes completed server-side: %v", len(r.Done), r.Done)
+}
+
+// Relay is a TCP front that forwards its first connection to one address and
+// every later one to another (a network position between a node and its
+// server: it lets the fetch handshake through and answers the authentication
+// handshake itself).
+type Relay struct {
+	ln   net.Listener
+	Addr string
+	n    int32
+	wg   sync.WaitGroup
+}
+
+func NewRelay(first, rest string) (*Relay, error) {
+	ln, err := net.Listen("tcp", "127.0.0.1:0")
+	if err != nil {
+		return nil, err
+	}
+	r := &Relay{ln: ln, Addr: ln.Addr().String()}
+	go func() {
+		for {
+			c, err := ln.Accept()
+			if err != nil {
+				return
+			}
+			target := rest
+			if atomic.AddInt32(&r.n, 1) == 1 {
+				target = first
+			}
+			r.wg.Add(1)
+			go func() {
+				defer r.wg.Done()
+				defer c.Close()
+				d, err := net.DialTimeout("tcp", target, 10*time.Second)
+				if err != nil {
+					return
+				}
+				defer d.Close()
+				done := make(chan struct{}, 2)
+				go func() { io.Copy(d, c); done <- struct{}{} }()
+				go func() { io.Copy(c, d); done <- struct{}{} }()
+				<-done
+			}()
+		}
+	}()
+	return r, nil
+}
+
+// Connections reports how many connections the relay has taken.
+func (r *Relay) Connections() int { return int(atomic.LoadInt32(&r.n)) }
+
+func (r *Relay) Close() {
+	r.ln.Close()
+	r.wg.Wait()
 }
